@@ -5,6 +5,7 @@ package main
 // under test calls.  Every model used on a run is listed in the evidence.
 
 import (
+	"go/token"
 	"fmt"
 	"go/types"
 	"math/big"
@@ -273,8 +274,18 @@ func init() {
 		"(github.com/orda-io/orda/client/pkg/model.OpList).ToString",
 		"(*github.com/orda-io/orda/client/pkg/model.Operation).ToString",
 	} {
-		reg(n, func(fr *frame, a []value) value { return "<fmt>" })
+		n := n
+		reg(n, func(fr *frame, a []value) value {
+			if fr.ex.realFormatting {
+				// vf.RealFormatting(): the helper is executed (a crash inside the formatting of a
+				// log line is a crash of the request); its result is still not looked at
+				fr.ex.bypassIntrinsic = fr.fn
+				callSSA(fr.ex, fr.caller, token.NoPos, fr.fn, a, nil)
+			}
+			return "<fmt>"
+		})
 	}
+	reg(vfPkg+".RealFormatting", func(fr *frame, a []value) value { fr.ex.realFormatting = true; return nil })
 	reg("(google.golang.org/protobuf/internal/impl.Export).MessageStringOf", func(fr *frame, a []value) value { return "<pb>" })
 	reg("(google.golang.org/protobuf/internal/impl.Export).MessageStateOf", func(fr *frame, a []value) value { return zeroResult(fr.fn) })
 	reg("google.golang.org/grpc/status.Error", func(fr *frame, a []value) value {
